@@ -137,6 +137,65 @@ theorem trunc_small (our : Nat) (hs : List C01.Htlc) : truncMsat our hs < 1000 *
     | cons h t ih => simp only [sumBy, List.length_cons]; omega
   omega
 
+/-! ### whenever there is something to claim, our anchor exists
+
+The contract court writes the taproot briefcase (control blocks, tap tweaks)
+only together with an anchor resolution (`LogContractResolutions`), and
+`PersistProps.taproot_needs_aux` shows nothing taproot can be signed after a
+reload without it.  On anchor channels the commitment construction guarantees
+the anchor whenever any of our resolutions has an output to claim. -/
+
+def ourAnchor (c : Chain) : OKind :=
+  match c with
+  | .loc => .anchorLocal
+  | .rem => .anchorRemote
+
+theorem htlcSat_pos_untrimmed (hs : List C01.Htlc) (h : 0 < sumBy htlcSat hs) :
+    0 < (hs.filter (fun h => !h.dust)).length := by
+  induction hs with
+  | nil => simp [sumBy] at h
+  | cons x t ih =>
+    by_cases hd : x.dust = true
+    · simp only [sumBy, htlcSat, hd, if_true, Nat.zero_add] at h
+      simp [List.filter, hd, ih h]
+    · have hd' : x.dust = false := by simpa using hd
+      simp [List.filter, hd']
+
+theorem claimed_implies_anchor (cfg : Cfg) (c : Chain) (our their : Nat) (outg inc : List C01.Htlc)
+    (ha : cfg.anchors = true)
+    (h : 0 < claimedTotal c (commitOuts cfg c our their outg inc)) :
+    (⟨anchorSize, ourAnchor c, 0, 0⟩ : Out) ∈ commitOuts cfg c our their outg inc := by
+  rw [claimed_exact, sumBy_append] at h
+  have hcase : (cfg.dust c ≤ our / 1000) ∨
+      0 < (outg.filter (fun h => !h.dust)).length + (inc.filter (fun h => !h.dust)).length := by
+    by_cases hs : cfg.dust c ≤ our / 1000
+    · exact Or.inl hs
+    · right
+      simp only [selfSat, hs, if_false, Nat.zero_add] at h
+      rcases Nat.eq_zero_or_pos (sumBy htlcSat outg) with h0 | h0
+      · have := htlcSat_pos_untrimmed inc (by omega); omega
+      · have := htlcSat_pos_untrimmed outg h0; omega
+  cases c
+  · simp only [commitOuts, buildOuts, ourAnchor, List.mem_append, ha, Bool.true_and]
+    left; left; left; right
+    rcases hcase with hs | hn
+    · have : decide (our / 1000 ≥ cfg.dustL) = true := by simpa [Cfg.dust] using hs
+      simp [this]
+    · have : decide ((outg.filter (fun h => !h.dust)).length +
+          (inc.filter (fun h => !h.dust)).length > 0) = true := by simpa using hn
+      simp [this]
+  · simp only [commitOuts, buildOuts, ourAnchor, List.mem_append, ha, Bool.true_and]
+    left; left; right
+    rcases hcase with hs | hn
+    · have : decide (our / 1000 ≥ cfg.dustR) = true := by simpa [Cfg.dust] using hs
+      simp [this]
+    · have : decide ((inc.filter (fun h => !h.dust)).length +
+          (outg.filter (fun h => !h.dust)).length > 0) = true := by
+        have : 0 < (inc.filter (fun h => !h.dust)).length + (outg.filter (fun h => !h.dust)).length := by
+          omega
+        simpa using this
+      simp [this]
+
 /-! ### inversion of `C01.buildCommit` -/
 
 def outgOf (cfg : Cfg) (c : Chain) (r : ViewResult) : List C01.Htlc := r.liveL.map (htlcOf cfg false c r.feePerKw)
